@@ -44,6 +44,9 @@ def check(run: Run) -> None:
     from ..daterules import century_rule
 
     century_rule(run, model, "C01.R4")
+    from ..daterules import short_date_recogniser_agrees
+
+    short_date_recogniser_agrees(run, model, "C01.R4")
     ts = run_file_typestate(run.repo, model)
     g = ts.grammar
     for w in ts.imprecise:
@@ -62,7 +65,7 @@ def check(run: Run) -> None:
             rule = rule[0].lower() + rule[1:]
             run.check("C01.R1", f"{nm} overrides a listener method of an existing rule", nm in lm and rule in g.rule_index, "ZorgFileCompiler", nm,
                       f"`{nm}` is not a method of the generated listener (rule `{rule}`): it is never called and whatever it resets never happens", file=FILE, node=m.node)
-    run.floor("listener overrides", n_over, 39)
+    run.floor("listener overrides", n_over, 30)
     bad = [nm for nm in FORBIDDEN_OVERRIDES if nm in ci.methods]
     run.check("C01.R1", "walker hooks are not overridden", not bad, "ZorgFileCompiler", str(bad), f"{bad} overridden: the walker contract assumed by the typestate no longer holds", file=FILE)
 
